@@ -41,3 +41,20 @@ class StrictFormatter(logging.Formatter):
 
     def __init__(self, fmt=None, datefmt=None):
         logging.Formatter.__init__(self, fmt, datefmt)
+
+
+# how many more times FlakyFormatter fails (set by the simulator: an
+# environment fault at the moment a handler is being finished)
+FLAKY = {"left": 0}
+
+
+class FlakyFormatter(logging.Formatter):
+    """An application formatter whose construction can fail for a while (it
+    reads a resource of its own); it is a complete logging.Formatter
+    otherwise, style parameter included."""
+
+    def __init__(self, fmt=None, datefmt=None, style="%", validate=True):
+        if FLAKY["left"] > 0:
+            FLAKY["left"] -= 1
+            raise OSError(5, "zcsim flaky formatter: resource unavailable")
+        logging.Formatter.__init__(self, fmt, datefmt, style, validate)
